@@ -43,8 +43,12 @@ fcppt::parse::repetition_plus<Parser>::parse(
   return fcppt::either::map(
       parser.parse(_state, _skipper), [](fcppt::parse::result_of<decltype(parser)> &&_result) {
         // TODO(philipp): Should we reverse this so that push_back works?
-        return fcppt::container::join(
-            result_type{std::move(fcppt::tuple::get<0>(_result))}, std::move(fcppt::tuple::get<1>(_result)));
+        // Do not use an initializer list for the first element: that would copy it.
+        result_type first{};
+
+        first.push_back(std::move(fcppt::tuple::get<0>(_result)));
+
+        return fcppt::container::join(std::move(first), std::move(fcppt::tuple::get<1>(_result)));
       });
 }
 
